@@ -303,108 +303,113 @@ def flip(r):
 
 
 class RelStore:
-    """chosen relations between prefix symbols + closure under the containment axioms"""
+    """chosen relations between prefix symbols + closure under the containment axioms
+    (worklist propagation: each new fact is composed with the facts adjacent to it)"""
 
     def __init__(self):
-        self.rel = {}  # (a,b) with a<b lexicographically -> relation of (a,b)
+        self.rel = {}   # (a,b) -> relation of (a,b); both orientations are stored
+        self.adj = {}   # a -> set of b with a known relation
 
     def get(self, a, b):
         if a == b:
             return (EQ, None, None)
-        if (a, b) in self.rel:
-            return self.rel[(a, b)]
-        if (b, a) in self.rel:
-            return flip(self.rel[(b, a)])
-        return None
+        return self.rel.get((a, b))
 
-    def set(self, a, b, r):
+    def base(self, a, b):
         if a == b:
-            if r[0] != EQ:
-                raise Infeasible("rel(%s,%s) != EQ" % (a, b))
-            return
-        old = self.get(a, b)
-        if old is not None:
-            if old[0] != r[0]:
-                raise Infeasible("rel(%s,%s)" % (a, b))
-            # refine DISJ details only if unknown
-            if old[0] == DISJ:
-                merged = (DISJ, old[1] or r[1], old[2] or r[2])
-                if (old[1] and r[1] and old[1] != r[1]) or (old[2] and r[2] and old[2] != r[2]):
-                    raise Infeasible("rel(%s,%s) detail" % (a, b))
-                r = merged
-            else:
-                return
-        if (b, a) in self.rel:
-            self.rel[(b, a)] = flip(r)
-        else:
-            self.rel[(a, b)] = r
+            return EQ
+        r = self.rel.get((a, b))
+        return r[0] if r else None
+
+    def syms(self):
+        return set(self.adj)
 
     def alias(self, new, old):
         pass
 
-    def syms(self):
-        s = set()
-        for a, b in self.rel:
-            s.add(a)
-            s.add(b)
-        return s
+    def _put(self, a, b, r):
+        self.rel[(a, b)] = r
+        self.rel[(b, a)] = flip(r)
+        self.adj.setdefault(a, set()).add(b)
+        self.adj.setdefault(b, set()).add(a)
 
-    def base(self, a, b):
-        r = self.get(a, b)
-        return r[0] if r else None
+    def set(self, a, b, r):
+        """record rel(a,b)=r and everything that follows; raise Infeasible on contradiction"""
+        work = [(a, b, r)]
+        while work:
+            a, b, r = work.pop()
+            if a == b:
+                if r[0] != EQ:
+                    raise Infeasible("rel(%s,%s) != EQ" % (a, b))
+                continue
+            old = self.rel.get((a, b))
+            if old is not None:
+                if old[0] != r[0]:
+                    raise Infeasible("rel(%s,%s): %s vs %s" % (a, b, old[0], r[0]))
+                if old[0] == DISJ:
+                    if (old[1] and r[1] and old[1] != r[1]) or (old[2] and r[2] and old[2] != r[2]):
+                        raise Infeasible("rel(%s,%s) detail" % (a, b))
+                    merged = (DISJ, old[1] or r[1], old[2] or r[2])
+                    if merged != old:
+                        self._put(a, b, merged)
+                continue
+            self._put(a, b, r)
+            # compose the new fact with its neighbours, in both orientations
+            for (x, y, rxy) in ((a, b, r[0]), (b, a, flip(r)[0])):
+                for z in list(self.adj.get(y, ())):
+                    if z == x:
+                        continue
+                    ryz = self.rel[(y, z)][0]
+                    new = compose(rxy, ryz)
+                    cur = self.rel.get((x, z))
+                    if new is None:
+                        if rxy == SUP and ryz == SUB and cur is not None and cur[0] == DISJ:
+                            raise Infeasible("two containers of %s are disjoint" % y)
+                        if rxy == SUB and ryz == SUP:
+                            pass
+                        continue
+                    if cur is None:
+                        work.append((x, z, (new, None, None)))
+                    elif cur[0] != new:
+                        raise Infeasible("closure %s %s %s" % (x, y, z))
+            # x ⊋ y and z ⊋ y  ⇒  x, z comparable: check the pairs around the contained symbol
+            for (x, y) in ((a, b), (b, a)):
+                if self.rel[(x, y)][0] in (SUP, EQ):
+                    for z in list(self.adj.get(y, ())):
+                        if z != x and self.rel[(z, y)][0] in (SUP, EQ):
+                            cur = self.rel.get((x, z))
+                            if cur is not None and cur[0] == DISJ:
+                                raise Infeasible("two containers of %s are disjoint" % y)
+
+    def close(self):
+        pass
 
     def consistent_with(self, a, b, r):
-        """would rel(a,b)=r contradict the closure of the known facts?  Sound pruning only:
-        returns False only when a contradiction is derived by the three containment rules."""
         trial = RelStore()
         trial.rel = dict(self.rel)
+        trial.adj = {k: set(v) for k, v in self.adj.items()}
         try:
             trial.set(a, b, r)
-            trial.close()
             return True
         except Infeasible:
             return False
 
-    def close(self):
-        """derive consequences; raise Infeasible on contradiction"""
-        changed = True
-        n = 0
-        while changed:
-            changed = False
-            n += 1
-            if n > 50:
-                break
-            syms = sorted(self.syms())
-            for x, y, z in itertools.permutations(syms, 3):
-                rxy = self.base(x, y)
-                ryz = self.base(y, z)
-                if rxy is None or ryz is None:
-                    continue
-                cur = self.base(x, z)
-                new = None
-                # weak containment: x ⊇ y  iff rel in {EQ, SUP}
-                if rxy in (EQ, SUP) and ryz in (EQ, SUP):
-                    new = EQ if (rxy == EQ and ryz == EQ) else SUP
-                elif rxy == EQ:
-                    new = ryz
-                elif ryz == EQ:
-                    new = rxy
-                elif rxy == DISJ and ryz == SUP:
-                    # x ∥ y, y ⊋ z  ⇒ x ∥ z  (something disjoint from y is disjoint from what y contains)
-                    new = DISJ
-                elif rxy == SUB and ryz == SUP:
-                    # y ⊋ x and y ⊋ z: no conclusion
-                    new = None
-                elif rxy == SUP and ryz == SUB:
-                    # x ⊋ y and z ⊋ y: x and z both contain y ⇒ comparable (not DISJ)
-                    if cur == DISJ:
-                        raise Infeasible("two containers of %s are disjoint" % y)
-                if new is not None:
-                    if cur is None:
-                        self.set(x, z, (new, None, None))
-                        changed = True
-                    elif cur != new:
-                        raise Infeasible("closure %s %s %s" % (x, y, z))
+
+def compose(rxy, ryz):
+    """relation of (x,z) implied by rel(x,y), rel(y,z); None = nothing follows"""
+    if rxy == EQ:
+        return ryz
+    if ryz == EQ:
+        return rxy
+    if rxy == SUP and ryz == SUP:
+        return SUP
+    if rxy == SUB and ryz == SUB:
+        return SUB
+    if rxy == DISJ and ryz == SUP:
+        return DISJ      # x ∥ y and y ⊋ z  ⇒  x ∥ z
+    if rxy == SUB and ryz == DISJ:
+        return DISJ      # y ⊋ x and y ∥ z  ⇒  x ∥ z
+    return None
 
 
 # ----------------------------------------------------------------------------- events
